@@ -227,3 +227,14 @@ Print Assumptions C07_concat_runs.
 Theorem C07_join_runs : forall c ins out, sorter_run c mf_join ins = Done out -> sorter_spec mf_join ins = Done out.
 Proof. exact join_runs_meet_the_specification. Qed.
 Print Assumptions C07_join_runs.
+
+(* the unstable and the rayon-parallel runs of the correspondence use mf_sortcat (the bytes of all values,
+   sorted): pure, flattening, insensitive to the order of a key's values - with ANY in-memory sort returning a
+   sorted permutation the run returns the specification's output *)
+From Grenad.proofs Require Import SortCat.
+
+Theorem C07_sortcat_runs : forall sortf : list entry -> list entry,
+  (forall l, sorted_leb (sortf l) = true) -> (forall l, Permutation (sortf l) l) ->
+  forall c ins out, gsorter_run sortf c mf_sortcat ins = Done out -> sorter_spec mf_sortcat ins = Done out.
+Proof. exact sortcat_runs_meet_the_specification. Qed.
+Print Assumptions C07_sortcat_runs.
